@@ -8,6 +8,7 @@ import (
 	"fmt"
 	"sort"
 	"strings"
+	"unicode/utf8"
 
 	pipeline "github.com/buildkite/go-pipeline"
 	"github.com/buildkite/go-pipeline/ordered"
@@ -347,7 +348,17 @@ func runC10(c *ctx) error {
 					} else {
 						var viaJSON vl.OMap
 						back.Range(func(k, v string) error { viaJSON = append(viaJSON, vl.KV{K: k, V: v}); return nil })
-						if vl.Enc(viaJSON) != vl.Enc(after) {
+						// (byte-offset substring expansions can cut a multi-byte rune in half; encoding/json writes U+FFFD for
+						// the broken bytes, so the JSON view is compared on valid text only)
+						validText := true
+						for _, kv := range after {
+							if sv, ok := kv.V.(string); !utf8.ValidString(kv.K) || (ok && !utf8.ValidString(sv)) {
+								validText = false
+							}
+						}
+						if !validText {
+							c.res.Hist("json-view-skipped.invalid-utf8-after-substring-expansion")
+						} else if vl.Enc(viaJSON) != vl.Enc(after) {
 							c.res.Fail(core.OracleFailure{What: "the env block's JSON after interpolation differs from what Range shows", Input: desc, Got: string(jb), Want: fmt.Sprint(after)})
 						}
 					}
